@@ -523,7 +523,7 @@ def latOf (w : World) (h : Nat) : Nat := match w.strus[h]? with
   | none => 0
 
 def atomsOf (w : World) (h : Nat) : List Nat := match w.strus[h]? with
-  | some s => s.atoms
+  | some s => if s.live then s.atoms else []
   | none => []
 
 def setAtoms (w : World) (h : Nat) (l : List Nat) : World :=
@@ -542,9 +542,14 @@ def allocAtom (w : World) (p L : Nat) : World :=
 def copySome (w : World) : List Nat → List Bool → World × List Nat
   | [], _ => (w, [])
   | a :: r, true :: fr =>
-    ((copySome (w.allocAtom (w.pay a) (w.alat a)) r fr).1, w.nextA :: (copySome (w.allocAtom (w.pay a) (w.alat a)) r fr).2)
-  | a :: r, _ :: fr => ((copySome w r fr).1, a :: (copySome w r fr).2)
-  | a :: r, [] => ((copySome w r []).1, a :: (copySome w r []).2)
+    let c := copySome (w.allocAtom (w.pay a) (w.alat a)) r fr
+    (c.1, w.nextA :: c.2)
+  | a :: r, _ :: fr =>
+    let c := copySome w r fr
+    (c.1, a :: c.2)
+  | a :: r, [] =>
+    let c := copySome w r []
+    (c.1, a :: c.2)
 
 def pushStru (w : World) (L : Nat) : World := { w with strus := w.strus ++ [⟨[], L, true⟩] }
 
@@ -635,8 +640,11 @@ def listOf (s : SpecState) (h : Nat) : List Nat := match s.lists[h]? with
   | some (some l) => l
   | _ => []
 
-def setList (s : SpecState) (h : Nat) (l : Option (List Nat)) : SpecState :=
-  { s with lists := updAt s.lists h (fun _ => l) }
+def setList (s : SpecState) (h : Nat) (l : List Nat) : SpecState :=
+  { s with lists := updAt s.lists h (Option.map (fun _ => l)) }
+
+def dropList (s : SpecState) (h : Nat) : SpecState :=
+  { s with lists := updAt s.lists h (fun _ => none) }
 
 def exec (s : SpecState) : Act Nat → SpecState × Except Err SRes
   | .plan p =>
@@ -648,7 +656,7 @@ def exec (s : SpecState) : Act Nat → SpecState × Except Err SRes
       | .new _ => s.lists.length
     match p.edit.apply (listOf s1 h) p.inc with
     | .ok (new, ret) =>
-      (setList s1 h (some new),
+      (setList s1 h new,
        .ok (match p.tgt, ret with
             | .new _, _ => .list h
             | .old _, some a => .val a
@@ -656,9 +664,9 @@ def exec (s : SpecState) : Act Nat → SpecState × Except Err SRes
     | .error e => (s1, .error e)
   | .retAtom a _ => (s, .ok (.val a))
   | .mkAtom p => ({ s with pool := s.pool ++ [p] }, .ok .none)
-  | .addNew h p => (setList s h (some (listOf s h ++ [p])), .ok .none)
+  | .addNew h p => (setList s h (listOf s h ++ [p]), .ok .none)
   | .setLat _ _ => (s, .ok .none)
-  | .drop h => (setList s h none, .ok .none)
+  | .drop h => (dropList s h, .ok .none)
   | .copyShape _ xs => ({ s with lists := s.lists ++ [some xs] }, .ok (.list s.lists.length))
 
 /-- one operation on plain lists of payloads: `lst.append(x)`, `lst[sl] = xs`, `lst + xs`, … -/
